@@ -207,45 +207,58 @@ def assigned_cases():
 
 
 def work_assigned(chunk):
+    """exactness on polynomials of degree < n + order at coarse geometric steps (0.5, 0.25, ...): the extrapolated value
+    is exact to rounding if and only if rule, difference quotient and Richardson stage belong to the same configuration"""
     import warnings
     import numdifftools as nd
+    from numdifftools.step_generators import MaxStepGenerator
+    from mc.oracle import stepmodel as sm
     acc = fw.Acc()
     for cfg0, cfg1 in chunk:
         m1, n1, o1 = cfg1
-        mo = max((o1 // 2) * 2, 2) if m1 == 'central' else o1
-        prob = None
+        prob, worst = None, 0.0
+        nsteps = max(sm.rule_length(*cfg0), sm.rule_length(*cfg1)) + 3
         for deg in range(0, n1 + o1):
             coef = 1.0 + 0.25 * deg
 
             def p(x, deg=deg, coef=coef):
                 return coef * (x - 0.25) ** deg
             exact = coef * math.factorial(deg) / math.factorial(deg - n1) * (0.75 - 0.25) ** (deg - n1) if deg >= n1 else 0.0
+            size = coef * (0.5 + 0.5) ** deg * 2.0 ** n1 + abs(exact)      # |p| on the stencil over the smallest step^n
             vals = []
             for mode in ('assigned', 'fresh'):
                 fw.fresh_library_state()
                 with warnings.catch_warnings():
                     warnings.simplefilter('ignore')
                     try:
+                        gen = MaxStepGenerator(base_step=0.5, num_steps=nsteps, step_ratio=2, step_nom=1.0)
                         if mode == 'fresh':
-                            d = nd.Derivative(p, method=m1, n=n1, order=o1)
+                            d = nd.Derivative(p, method=m1, n=n1, order=o1, step=gen)
                         else:
-                            d = nd.Derivative(p, method=cfg0[0], n=cfg0[1], order=cfg0[2])
+                            d = nd.Derivative(p, method=cfg0[0], n=cfg0[1], order=cfg0[2], step=gen)
                             if cfg0[0] != m1:
                                 d.method = m1
                             if cfg0[2] != o1:
                                 d.order = o1
                             if cfg0[1] != n1:
                                 d.n = n1
-                        vals.append(float(d(0.75)))
+                        vals.append(float(np.real(d(0.75))))
                     except Exception as e:      # noqa: BLE001
                         vals.append('raised %s' % type(e).__name__)
-            if vals[0] != vals[1] and prob is None:
-                prob = ('degree %d: after assignment %r, built directly %r (exact %r)' % (deg, vals[0], vals[1], exact))
+            if isinstance(vals[1], str) or not abs(vals[1] - exact) <= 1e-9 * size * 2.0 ** (n1 * nsteps) * 1e-3:
+                acc.count('assigned: directly built object not exact on this monomial (not judged)')
+                continue
+            allow = 1e-7 * size
+            err = float('inf') if isinstance(vals[0], str) else abs(vals[0] - exact)
+            worst = max(worst, err / allow)
+            if not err <= allow and prob is None:
+                prob = ('degree %d: after assignment %r, exact %r (an object built directly gives %r)' % (deg, vals[0], exact, vals[1]))
         acc.case(('assigned', cfg0, cfg1), nontrivial=True, cell='assigned/%s' % m1, outcome=prob is None)
+        acc.maxi('assigned/worst error over allowance', worst)
         if prob:
             acc.violation('C06:%s:assigned-configuration' % m1, dict(kind='assigned', built=list(cfg0), assigned=list(cfg1)),
-                          'Derivative built with (method, n, order) = %r, then assigned %r, on the monomials of degree < n + order: %s'
-                          % (cfg0, cfg1, prob), rank=n1)
+                          'Derivative built with (method, n, order) = %r, then assigned %r, steps 0.5 * 2^-i, on the monomials of '
+                          'degree < n + order: %s' % (cfg0, cfg1, prob), rank=n1)
     fw.fresh_library_state()
     return acc
 
